@@ -48,6 +48,9 @@ func NewFilter(config FilterConfig, checker Checker) Filter {
 // always considered healthy.
 func (f *filter) Run(addrs stringset.Set) stringset.Set {
 	if len(addrs) == 1 {
+		// No health checks are run, but membership is still recorded so that
+		// hosts which left the list start as healthy when they rejoin.
+		f.state.sync(addrs)
 		return addrs.Copy()
 	}
 
